@@ -450,10 +450,18 @@ def oracle_c15(c, a, b):
         if reason and not waivers and " addq " not in c:
             return "after the hook script: " + reason
     # copy-out discipline
-    for piece in halves[0].split(" ; "):
+    pieces = halves[0].split(" ; ")
+    for piece in pieces:
         m = re.match(r"ret=0 len=(\d+) bytes=(\S+)", piece)
         if m and int(m.group(1)) * 2 != len(m.group(2)) and not (m.group(1) == "0"):
             return "raw_packet length does not match the bytes copied"
+    ops = [o.strip() for o in re.sub(r" #\S*$", "", " ".join(w[2:])).split(" ; ")]
+    for op, piece in zip(ops, pieces):
+        ow = op.split(" ")
+        if ow[0] == "rawpacket" and len(ow) == 2:
+            m = re.match(r"ret=0 len=(\d+)", piece)
+            if m and int(m.group(1)) > int(ow[1]):
+                return "raw_packet copied %s bytes into a buffer of stated capacity %s" % (m.group(1), ow[1])
     return None
 
 
